@@ -124,7 +124,7 @@ func modeAlphabet(full bool) []modeCall {
 			}, func(s Format) Format { return s }),
 			// WithSkip(n) keeps one child per n: the second call returns the child made by the first, whose format is its
 			// own by then (handing it out again is not a mode call)
-			with("WithSkip(1)", func(t *slog.Entry) *slog.Entry { return t.WithSkip(1) }, func(s Format) Format { return s }),
+			modeCall{"WithSkip(1)", func(t *slog.Entry, _ int) (*slog.Entry, bool) { return t.WithSkip(1), true }, func(s Format) Format { return s }},
 			// a log/slog handler built on the logger applies its options (a mode call like any other) ...
 			set("NewSlogHandler(JSON)", func(t *slog.Entry) *slog.Entry {
 				c11handlers[t] = slog.NewSlogHandler(t, &slog.HandlerOptions{JSON: true, NoSource: true, Level: slog.PanicLevel})
@@ -185,6 +185,10 @@ func c11run(c *Ctx, idx int, log *mon.Log, w mon.W, alpha []modeCall, steps []c1
 		known := false
 		for _, l := range loggers {
 			known = known || l == aff
+		}
+		if created && known && !strings.HasPrefix(mc.name, "WithSkip") {
+			c.R.Violation(idx, "with-returns-new-child", "C11/with-returns-new-child/"+strings.ReplaceAll(mc.name, " ", "_"), fmt.Sprintf("after %v the call handed out a logger that existed already (its format is no longer decided by its own mode calls)", hist), map[string]any{"sequence": hist})
+			return false
 		}
 		if created && known {
 			// the call handed out a logger that exists already (WithSkip keeps one child per count): nothing changes
